@@ -27,7 +27,7 @@ def deep(t):
     t = res(t)
     if isinstance(t, TVar):
         return t
-    if t[0] in ('opt', 'vec', 'set', 'iter'):
+    if t[0] in ('opt', 'vec', 'set', 'iter', 'uvec', 'uiter'):
         return (t[0], deep(t[1]))
     if t[0] == 'map':
         return ('map', deep(t[1]), deep(t[2]))
@@ -44,7 +44,7 @@ def has_tvar(t):
     t = res(t)
     if isinstance(t, TVar):
         return True
-    if t[0] in ('opt', 'vec', 'set', 'iter'):
+    if t[0] in ('opt', 'vec', 'set', 'iter', 'uvec', 'uiter'):
         return has_tvar(t[1])
     if t[0] in ('map', 'result'):
         return has_tvar(t[1]) or has_tvar(t[2])
@@ -68,6 +68,8 @@ def unify(a, b):
         return True
     if a[0] == 'never' or b[0] == 'never':
         return True
+    if a[0] == 'tparam' or b[0] == 'tparam':
+        return True   # type parameters are instantiated by Lean's own inference
     if a[0] == 'int' and b[0] == 'int':
         return True
     # slices, vectors and materialised iterators share a representation
@@ -75,7 +77,7 @@ def unify(a, b):
         return unify(a[1], b[1])
     if a[0] != b[0]:
         return False
-    if a[0] in ('opt', 'set'):
+    if a[0] in ('opt', 'set', 'uvec', 'uiter'):
         return unify(a[1], b[1])
     if a[0] in ('map', 'result'):
         return unify(a[1], b[1]) and unify(a[2], b[2])
@@ -127,11 +129,19 @@ def lean_type(t, structs):
         return 'Array (Option Bool)'
     if k == 'val':
         return 'Array Bool'
-    if k in ('opt', 'vec', 'iter', 'set'):
+    if k == 'rng':
+        return 'List Bool'
+    if k in ('reader', 'writer', 'ioerr', 'errkind'):
+        return {'reader': 'Rust.Reader', 'writer': 'Rust.Writer', 'ioerr': 'Rust.IoError', 'errkind': 'Rust.ErrorKind'}[k]
+    if k == 'ordering':
+        return 'Ordering'
+    if k == 'tparam':
+        return t[1]
+    if k in ('opt', 'vec', 'iter', 'set', 'uvec', 'uiter'):
         inner = lean_type(t[1], structs)
         if inner is None:
             return None
-        head = {'opt': 'Option', 'vec': 'Array', 'iter': 'Array', 'set': 'Std.HashSet'}[k]
+        head = {'opt': 'Option', 'vec': 'Array', 'iter': 'Array', 'set': 'Std.HashSet', 'uvec': 'Array', 'uiter': 'Array'}[k]
         return '%s %s' % (head, paren_ty(inner))
     if k == 'map':
         a, b = lean_type(t[1], structs), lean_type(t[2], structs)
